@@ -36,6 +36,9 @@ def one(name):
         rc, out = sh(['git', 'apply', os.path.join(sd, 'patch.diff')], wt)
         if rc:
             return name, 'NOAPPLY', out[-200:]
+        rci, _ = sh([PY, '-c', 'import fastparquet'], wt, env)
+        if rci:
+            return name, 'PATCHED-PACKAGE-DOES-NOT-IMPORT', ''
         rc1, o1 = sh([PY, demo], wt, env)
         if rc0 != 0:
             return name, 'DEMO-FAILS-ON-CLEAN-TREE', o0[-300:]
